@@ -257,14 +257,16 @@ func (a *Agent) UpdatePeers(ctx context.Context, p pool.Pool) error {
 	logger.Printf("Pool update: peers=%d active=%d invalid=%d block=%d balance=%s", len(peers), len(update.ActivePeers), len(update.InvalidPeers), blockNumber, balance.String())
 
 	if a.StrictPeers {
-		lookup := make(map[string]string, len(update.ActivePeers))
+		// Set of "<id>@<host>" the pool considers active (an id may be listed
+		// under more than one host).
+		lookup := make(map[string]struct{}, len(update.ActivePeers))
 		for _, p := range update.ActivePeers {
 			uri, err := ethnode.ParseNodeURI(p)
 			if err != nil {
 				logger.Printf("Failed to parse active peer enode from pool %q: %s", err, p)
 				continue
 			}
-			lookup[uri.ID()] = uri.RemoteHost()
+			lookup[uri.ID()+"@"+uri.RemoteHost()] = struct{}{}
 		}
 
 		// Mark any non-active peers as invalid, in addition to the peers the
@@ -274,7 +276,7 @@ func (a *Agent) UpdatePeers(ctx context.Context, p pool.Pool) error {
 			uri, err := ethnode.ParseNodeURI(p.EnodeURI())
 			if err != nil {
 				logger.Printf("Failed to parse peer enode %q: %s", err, p.EnodeURI())
-			} else if remoteAddr, ok := lookup[uri.ID()]; ok && uri.RemoteHost() == remoteAddr {
+			} else if _, ok := lookup[uri.ID()+"@"+uri.RemoteHost()]; ok {
 				continue // Local peer matching active peer on pool
 			}
 			update.InvalidPeers = append(update.InvalidPeers, p.EnodeURI())
